@@ -231,6 +231,12 @@ func runCheck(id, tier, repo string, seed int, writeBaseline bool) int {
 		}
 		n := 0
 		for _, ob := range vc.obs {
+			if len(vc.unsupported) > 0 {
+				// the function uses a construct the generator does not model: none of its obligations can be trusted
+				ob.Status = "undecided"
+				ob.Solver = "function outside the verified subset: " + strings.Join(vc.unsupported, "; ")
+				ob.Output = ob.Solver
+			}
 			if len(ob.Tags) == 0 {
 				ob.Tags = ft
 			}
@@ -276,6 +282,9 @@ func runCheck(id, tier, repo string, seed int, writeBaseline bool) int {
 	} else {
 		solver.TimeoutS = 60
 		solver.QuickS = 6
+	}
+	if os.Getenv("GOCV_TIMING") != "" {
+		fmt.Fprintf(os.Stderr, "timing: load+translate %.1fs\n", time.Since(t0).Seconds())
 	}
 	t1 := time.Now()
 	solver.DischargeAll(all, 14)
@@ -326,12 +335,13 @@ func runCheck(id, tier, repo string, seed int, writeBaseline bool) int {
 			}
 			notes = append(notes, "unreachable path (dead code or infeasible under the precondition): "+ob.Name+" at "+ob.Pos)
 		}
-		if ob.Kind == "cover" && ob.Status != "failed" && ob.Status != "discharged" {
+		if ob.Kind == "cover" && ob.Status != "failed" && ob.Status != "discharged" && !strings.HasPrefix(ob.Solver, "function outside") {
 			fmt.Fprintf(os.Stderr, "engine error: vacuity guard %s could not be run: %s\n", ob.Name, ob.Solver)
 			return 3
 		}
 	}
 	var violations []string
+	outsideReported := map[string]bool{}
 	var knownLines []string
 	var undecided []string
 	var newDischarged []string
@@ -380,6 +390,21 @@ func runCheck(id, tier, repo string, seed int, writeBaseline bool) int {
 			if !inBaseline[b] {
 				newDischarged = append(newDischarged, b)
 			}
+			continue
+		}
+		if inBaseline[b] && strings.HasPrefix(g.obs[0].Solver, "function outside") {
+			// one report per function that left the verified subset
+			fn := b
+			if i := strings.Index(fn, "#"); i > 0 {
+				fn = fn[:i]
+			}
+			if outsideReported[fn] {
+				continue
+			}
+			outsideReported[fn] = true
+			g.base = fn + "#subset"
+			rp := writeReplay(id, g, g.obs[0].Solver)
+			violations = append(violations, fmt.Sprintf("VIOLATION property=%s replay=%s obligation=%s no-failing-input-found", id, rp, g.base))
 			continue
 		}
 		if inBaseline[b] || len(baseline.Discharged[id]) == 0 && !writeBaseline && false {
